@@ -676,6 +676,82 @@ fn run_storm(ctl: &Arc<Ctl>, c: &Arc<Content>, cap: u64, rng: &mut impl Rng, nth
     normalise(c, ctl.take_events())
 }
 
+/// Renamed items (C12: "entries that were ... renamed ... while the cache was closed turn into misses or errors ...,
+/// never into wrong data or a panic").  Three items are put, the cache is closed, one item file is renamed to a name
+/// that claims another chunk range / another key directory with the file's own length and checksum (so the length
+/// and checksum tests of the name pass), the cache is re-opened and every range of every key is read.  Such an entry
+/// lies outside the item universe of ChunkCache.tla (its length is not the length of the range it claims), so the run
+/// is reported as one summary event: for every get its outcome and, for a hit, whether the data is the right data.
+fn run_renames(ctl: &Arc<Ctl>, c: &Arc<Content>, cap: u64, out: &mut TraceOut) -> anyhow::Result<usize> {
+    let nch = c.nch as u32;
+    let base: Vec<(usize, u32, u32)> = vec![(0, 0, nch), (1 % c.keys.len(), 0, 1), (1 % c.keys.len(), 1, nch)];
+    let mut variants: Vec<(usize, usize, u32, u32)> = vec![]; // (item renamed, key dir of the new name, claimed start, claimed end)
+    for (i, (k, s, e)) in base.iter().enumerate() {
+        for (cs, ce) in [(*s, e + 1), (*s, e + 3), (s + 1, *e), (*s, e.saturating_sub(1).max(s + 1)), (s + 1, e + 1), (0u32, 1u32)] {
+            if (cs, ce) != (*s, *e) && cs < ce {
+                variants.push((i, *k, cs, ce));
+            }
+        }
+        variants.push((i, (*k + 1) % c.keys.len(), *s, *e)); // moved into another key's directory under its own name
+    }
+    let mut runs = 0;
+    for (vi, (i, kdir, cs, ce)) in variants.iter().enumerate() {
+        let dir = tempfile::tempdir()?;
+        ctl.reset_sched();
+        ctl.set_controlled(false);
+        let _ = ctl.take_events();
+        set_thread_actor("t1");
+        let Some(cache) = open_cache(c, dir.path(), cap, false) else { continue };
+        for (k, s, e) in &base {
+            let (idx, d) = c.data(*k, *s, *e);
+            let _ = cache.put(&c.keys[*k], &ChunkRange { start: *s, end: *e }, &idx, &d);
+        }
+        drop(cache);
+        let (k, s, e) = base[*i];
+        let from = c.item_path(dir.path(), k, s, e);
+        let (_, len, crc) = c.file(k, s, e);
+        let to = c.key_dir(dir.path(), *kdir).join(Content::item_name(*cs, *ce, len, crc));
+        let _ = std::fs::create_dir_all(to.parent().unwrap());
+        if std::fs::rename(&from, &to).is_err() {
+            continue;
+        }
+        let mut gets = vec![];
+        let mut reopen = "ok";
+        match std::panic::catch_unwind(|| DiskCache::initialize(&CacheConfig { cache_directory: dir.path().to_path_buf(), cache_size: cap })) {
+            Ok(Ok(cache)) => {
+                for gk in 0..c.keys.len() {
+                    for gs in 0..nch {
+                        for ge in gs + 1..=nch + 1 {
+                            let r = std::panic::catch_unwind(std::panic::AssertUnwindSafe(|| cache.get(&c.keys[gk], &ChunkRange { start: gs, end: ge })));
+                            let (res, data_ok) = match r {
+                                Ok(Ok(Some(cr))) => {
+                                    let good = ge <= nch && {
+                                        let (idx, d) = c.data(gk, gs, ge);
+                                        cr.data.as_ref() == &d[..] && cr.offsets.to_vec() == idx
+                                    };
+                                    ("hit", good)
+                                },
+                                Ok(Ok(None)) => ("miss", true),
+                                Ok(Err(_)) => ("err", true),
+                                Err(_) => ("panic", false),
+                            };
+                            gets.push(json!({"k": c.names[gk], "s": gs, "e": ge, "res": res, "data_ok": data_ok}));
+                        }
+                    }
+                }
+            },
+            Ok(Err(_)) => reopen = "err",
+            Err(_) => reopen = "panic",
+        }
+        let _ = ctl.take_events();
+        let ev = vec![json!({"ev": "CcRenamed", "actor": "t1", "variant": vi, "item": [c.names[k], s, e], "to_key": c.names[*kdir], "claims": [cs, ce],
+                             "reopen": reopen, "gets": gets}).to_string()];
+        out.run(&ev)?;
+        runs += 1;
+    }
+    Ok(runs)
+}
+
 /// Fault enumeration (C12): one run per fault.  A directory is populated with three items, closed, one fault is
 /// applied (burst error at every byte, truncation to every length, extension, deletion, junk of every name class at
 /// every level), the directory is re-opened and every range of every key is read.
@@ -939,6 +1015,9 @@ pub fn run(a: &Args) -> anyhow::Result<String> {
                 note(&ev);
                 out.run(&ev)?;
             }
+        },
+        "renames" => {
+            run_renames(&ctl, &c, cap, &mut out)?;
         },
         "faults" => {
             run_faults(&ctl, &c, cap, &mut rng, &mut out, a.u64("stride", 1) as usize, &mut note)?;
